@@ -128,8 +128,12 @@ class Ctx:
             # self-test support: keep a copy of (a bounded number of) the records this run judged
             Path(dump).mkdir(parents=True, exist_ok=True)
             with open(Path(dump) / f"{self.prop}.ndjson", "a") as f:
-                for rec in records[:400]:
-                    f.write(json.dumps(rec) + "\n")
+                per_kind: dict = {}
+                for rec in records:
+                    k = str(rec.get("kind", ""))
+                    per_kind[k] = per_kind.get(k, 0) + 1
+                    if per_kind[k] <= 150:
+                        f.write(json.dumps(rec) + "\n")
         n = len(records)
         shards = shards or max(1, min(WORKERS, n // 200 or 1))
         parts = [records[i::shards] for i in range(shards)]
